@@ -196,6 +196,12 @@ def intrinsics():
 
     # ---- iterators
     I["core::iter::traits::collect::IntoIterator::into_iter"] = lambda ip, n, a: to_iter(a[0])
+    def ptr_eq(ip, n, a):
+        x, y = d(a[0]), d(a[1])
+        if isinstance(x, (A.VecV, A.Struct, A.Enum, MapV, SetV)) and isinstance(y, (A.VecV, A.Struct, A.Enum, MapV, SetV)):
+            return x is y                 # two abstract containers are one allocation only if they are one object
+        raise A.Unsupported("Arc::ptr_eq on values without an allocation identity (%r, %r)" % (x, y))
+    I["alloc::sync::Arc::<T, A>::ptr_eq"] = ptr_eq
     I["core::ops::range::RangeInclusive::<Idx>::new"] = lambda ip, n, a: A.Struct("core::ops::range::RangeInclusive", {"start": a[0], "end": a[1]})
     I[IT + "next"] = lambda ip, n, a: to_iter(a[0]).next()
     I[IT + "map"] = lambda ip, n, a: IterV(call_f(ip, a[1], [x]) for x in to_iter(a[0]))
@@ -414,6 +420,28 @@ def intrinsics():
     I[OPT + "or"] = lambda ip, n, a: d(a[0]) if d(a[0]).variant == "Some" else d(a[1])
     I[OPT + "and"] = lambda ip, n, a: d(a[1]) if d(a[0]).variant == "Some" else none()
     I[OPT + "or_else"] =lambda ip, n, a: d(a[0]) if d(a[0]).variant == "Some" else call_f(ip, a[1], [])
+    I[OPT + "is_some_and"] = lambda ip, n, a: d(a[0]).variant == "Some" and ip.truth(call_f(ip, a[1], [d(a[0]).fields[0]]))
+    I[OPT + "is_none_or"] = lambda ip, n, a: d(a[0]).variant == "None" or ip.truth(call_f(ip, a[1], [d(a[0]).fields[0]]))
+    I[OPT + "map_or_else"] = lambda ip, n, a: call_f(ip, a[2], [d(a[0]).fields[0]]) if d(a[0]).variant == "Some" else call_f(ip, a[1], [])
+    I[OPT + "xor"] = lambda ip, n, a: (d(a[0]) if d(a[1]).variant == "None" else none()) if d(a[0]).variant == "Some" else (d(a[1]) if d(a[1]).variant == "Some" else none())
+    I[OPT + "zip"] = lambda ip, n, a: some(A.Tuple([d(a[0]).fields[0], d(a[1]).fields[0]])) if d(a[0]).variant == "Some" and d(a[1]).variant == "Some" else none()
+    I[OPT + "flatten"] = lambda ip, n, a: d(d(a[0]).fields[0]) if d(a[0]).variant == "Some" else none()
+    I[OPT + "inspect"] = lambda ip, n, a: (call_f(ip, a[1], [d(a[0]).fields[0]]), d(a[0]))[1] if d(a[0]).variant == "Some" else d(a[0])
+
+    def transpose(ip, n, a):
+        o = d(a[0])
+        if o.variant == "None":
+            return ok(none())
+        r = d(o.fields[0])
+        return ok(some(r.fields[0])) if r.variant == "Ok" else r
+    I[OPT + "transpose"] = transpose
+    I[RES + "is_ok_and"] = lambda ip, n, a: d(a[0]).variant == "Ok" and ip.truth(call_f(ip, a[1], [d(a[0]).fields[0]]))
+    I[RES + "is_err_and"] = lambda ip, n, a: d(a[0]).variant == "Err" and ip.truth(call_f(ip, a[1], [d(a[0]).fields[0]]))
+    I[RES + "err"] = lambda ip, n, a: some(d(a[0]).fields[0]) if d(a[0]).variant == "Err" else none()
+    I[RES + "unwrap_or"] = lambda ip, n, a: d(a[0]).fields[0] if d(a[0]).variant == "Ok" else a[1]
+    I[RES + "unwrap_or_else"] = lambda ip, n, a: d(a[0]).fields[0] if d(a[0]).variant == "Ok" else call_f(ip, a[1], [d(a[0]).fields[0]])
+    I[RES + "map_or"] = lambda ip, n, a: call_f(ip, a[2], [d(a[0]).fields[0]]) if d(a[0]).variant == "Ok" else a[1]
+    I[RES + "or_else"] = lambda ip, n, a: d(a[0]) if d(a[0]).variant == "Ok" else call_f(ip, a[1], [d(a[0]).fields[0]])
     I[OPT + "take"] = lambda ip, n, a: _take(a[0])
 
     def unwrap(ip, n, a):
